@@ -13,6 +13,24 @@ OBLIGATIONS = [
          functions=["sqfs_writer_finish, padd_sqfs (lib/common/src/writer/finish.c)", "sqfs_super_write (write_super.c)"],
          bound="every sub-writer performs 0..2 appends and may fail (symbolic), exportable/no_xattr symbolic, device block size in {4,8,16} (scaled), file size before finish 96..100"),
 ]
+def tbl(kind, tiers):
+    nm = {1: "id_table", 2: "frag_table"}[kind]
+    return dict(name="%s_write_appends_only" % nm, harness="harness/C14_tables.c",
+        sources=["lib/sqfs/src/%s.c" % nm, "lib/sqfs/src/write_table.c", "lib/sqfs/src/meta_writer.c", "lib/sqfs/src/super.c", "lib/util/src/array.c", "lib/util/src/alloc.c"],
+        pre_include=["stubs/vp_pre_meta.h"], defines=dict(KIND=kind, NENT=2, VP_META=16, VP_CMP_MAXOUT=16), unwind=26,
+        unwindset={"vp_cmp_init.0": 5, "vp_cmp_init.1": 5, "sqfs_super_init.0": 22, "vp_file_write_at.0": 25, "sqfs_id_table_write.0": 4, "sqfs_id_table_write.1": 4,
+                   "sqfs_frag_table_write.0": 4, "sqfs_write_table.0": 3, "sqfs_meta_writer_append.0": 4, "sqfs_id_table_id_to_index.0": 4}, tiers=tiers, timeout=400,
+        fp_map={'read_at': ['vp_file_read_at'], 'write_at': ['vp_file_write_at'], 'get_size': ['vp_file_get_size'], 'do_block': ['nc_do_block'],
+                'destroy': ['id_table_destroy', 'frag_table_destroy', 'meta_writer_destroy', 'vp_file_destroy', 'vp_cmp_destroy']},
+        reach=["done"], functions=["sqfs_%s_write (lib/sqfs/src/%s.c)" % (nm, nm), "sqfs_write_table (write_table.c)", "sqfs_meta_writer_append/flush (meta_writer.c)"],
+        bound="table with 2 symbolic entries, metadata block size scaled to 16, file size before the call 96..100")
+OBLIGATIONS += [tbl(2, ["quick", "thorough"])]
+# tbl(1, ...) (id table through the real write_table/meta writer) does not finish in 400 s; the id table writer is checked with sqfs_write_table stubbed instead:
+OBLIGATIONS.append(dict(name="id_table_write_no_direct_file_write", harness="harness/C14_idwrite.c", sources=["lib/sqfs/src/super.c", "lib/util/src/array.c", "lib/util/src/alloc.c"],
+    included_sources=["lib/sqfs/src/id_table.c"], unwind=24, unwindset={"sqfs_id_table_write.0": 4, "sqfs_id_table_write.1": 4}, tiers=["quick", "thorough"], timeout=300,
+    fp_map={'write_at': ['vp_file_write_at'], 'get_size': ['vp_file_get_size'], 'truncate': ['vp_file_truncate']}, reach=["ok", "error_propagated"],
+    functions=["sqfs_id_table_write (lib/sqfs/src/id_table.c)"], bound="table with two symbolic ids; sqfs_write_table stubbed (may fail)"))
+
 ASSUMPTIONS = [
     "crash model: the process dies between two output system calls; a single write_at is atomic (the retry loop of C12 can split it - analysed by hand in DESIGN.md)",
     "sub-writers are modelled as append-only writers that set their superblock field like the real ones; append-only behaviour of the real meta writer / table writer / block writer is checked in C03/C08",
